@@ -41,6 +41,9 @@ CLASSES = {
     'str_semi': '"a;b"',
     'str_nl': '"a\nb"',
     'str_dq': '"a""b"',
+    'str_dq_sp': '"a"" b  c d e f g h i j"',
+    'str_nl_long': '"a\n' + 'w ' * 45 + 'e"',
+    'q_nl_long': '|a\n' + 'v ' * 45 + 'e|',
     'str_empty': '""',
     'q_sp': '|a  b|',
     'q_nl': '|a\n b|',
@@ -51,14 +54,14 @@ CLASSES = {
 # around column 78 of a one-line rendering
 PADS = [60, 68, 70, 72, 73, 74, 75, 76, 77, 78]
 
-MODES = ['checking', 'default', 'pretty', 'wrap']
+MODES = ['checking', 'default', 'pretty', 'wrap', 'pretty+wrap']
 
 
 def render(mods, mode, exprs, tmpfile):
     nodeio, options = mods['nodeio'], mods['options']
     a = options.args()
-    a.pretty_print = (mode == 'pretty')
-    a.wrap_lines = (mode == 'wrap')
+    a.pretty_print = mode in ('pretty', 'pretty+wrap')
+    a.wrap_lines = mode in ('wrap', 'pretty+wrap')
     try:
         if mode == 'checking':
             nodeio.write_smtlib_for_checking(tmpfile, exprs)
@@ -107,7 +110,9 @@ def main():
     rep.cov['rule'] = (
         'every forest GenForest.tla generates (no sharing) x every ordered '
         'pair of lexical classes for its two leaf labels (quick: pairs with '
-        'the first label from a rotating third of the classes) x 4 renderers, '
+        'the first label from a rotating third of the classes) x 5 output '
+        'configurations (checking, default, --pretty-print, --wrap-lines, '
+        'both), '
         'plus padded variants for --wrap-lines that move each class across '
         'column 70..80; non-trivial = at least 2 leaves or a nested list; '
         'distinct by (forest, class assignment, renderer)')
@@ -172,7 +177,7 @@ def main():
                                       lambda d: labels[''.join(d)])
                 nested = norm_nested(F.nested_of_nodes(exprs))
                 exp_tokens = F.tokens_of_nested(nested)
-                for mode in (['wrap'] if padded else MODES):
+                for mode in (['wrap', 'pretty+wrap'] if padded else MODES):
                     rep.count()
                     n += 1
                     try:
